@@ -211,8 +211,34 @@ func C15(c *Ctx) {
 }
 
 // c15Fixed are classes where the two paths apply case folding differently.
+// c15Sized: classes that list exactly n single characters in no particular order, for n around the
+// sizes at which an implementation might switch its lookup strategy (8, 16, 32, 64), plain,
+// caseless and inverted, with and without a range next to them.
+func c15Sized() []*gast.ClassSpec {
+	pool := []rune("+*/%&|^<>=!~?:;-_.,#@$'\"()[]{}zqkxwvbnmasdfgZQKXWVBNMéßΩλж0918273645")
+	var out []*gast.ClassSpec
+	for _, n := range []int{7, 8, 9, 15, 16, 17, 31, 32, 33, 63, 64, 65} {
+		for v := 0; v < 3; v++ {
+			// a deterministic shuffle of the pool per (n, v)
+			p := append([]rune{}, pool...)
+			x := uint32(n*31 + v*7 + 1)
+			for i := len(p) - 1; i > 0; i-- {
+				x = x*1664525 + 1013904223
+				j := int(x>>8) % (i + 1)
+				p[i], p[j] = p[j], p[i]
+			}
+			cs := &gast.ClassSpec{Chars: p[:n], IgnoreCase: v == 1, Inverted: v == 2}
+			out = append(out, cs)
+			if v == 0 {
+				out = append(out, &gast.ClassSpec{Chars: p[:n], Ranges: [][2]rune{{'c', 'e'}}})
+			}
+		}
+	}
+	return out
+}
+
 func c15Fixed() []*gast.ClassSpec {
-	return []*gast.ClassSpec{
+	return append(c15Sized(), []*gast.ClassSpec{
 		// a range followed by a range nested in it / touching it / overlapping it
 		{Ranges: [][2]rune{{'a', 'z'}, {'d', 'f'}}},
 		{Ranges: [][2]rune{{'!', '~'}, {'0', '9'}}, Inverted: true},
@@ -227,5 +253,5 @@ func c15Fixed() []*gast.ClassSpec {
 		{Ranges: [][2]rune{{' ', 0x80}}, Inverted: true},
 		{Chars: []rune{'K', 'ſ'}, IgnoreCase: true},
 		{Chars: []rune{0x212A}, IgnoreCase: true},
-	}
+	}...)
 }
